@@ -15,6 +15,7 @@ import (
 	"math"
 	"sort"
 	"strings"
+	"sync"
 
 	"golang.org/x/tools/go/ssa"
 )
@@ -146,12 +147,22 @@ func c19CellStores(a *ssa.Alloc) []*ssa.Store {
 
 // c19Res sees through type changes and loads of single-assignment local cells
 // (also when captured by a closure).
+// c19Binds maps a parameter of a followed helper (e.g. a shared field iterator) to
+// the argument of the call site under analysis. Keys are per loaded program, so
+// concurrent checks of different programs do not interfere.
+var c19Binds sync.Map
+
 func c19Res(v ssa.Value) ssa.Value {
-	for d := 0; d < 8; d++ {
+	for d := 0; d < 12; d++ {
 		switch x := v.(type) {
 		case *ssa.ChangeType:
 			v = x.X
 			continue
+		case *ssa.Parameter:
+			if b, ok := c19Binds.Load(x); ok {
+				v = b.(ssa.Value)
+				continue
+			}
 		case *ssa.UnOp:
 			if x.Op == token.MUL {
 				if a := c19Cell(x.X); a != nil {
@@ -712,7 +723,16 @@ func c19Norm(v ssa.Value, opaque *bool, depth int) string {
 // ignored, i.e. as a rational function) of an SSA expression; every other node
 // is a leaf whose value is a deterministic function of its normal form.
 func c19Eval(v ssa.Value, probe int, leaves map[string]float64, callLeaves map[string]bool) (float64, bool) {
+	return c19EvalEnv(v, probe, leaves, callLeaves, nil, 0)
+}
+
+// c19EvalEnv: env binds the parameters of an inlined single-expression chess-3 helper.
+func c19EvalEnv(v ssa.Value, probe int, leaves map[string]float64, callLeaves map[string]bool, env map[*ssa.Parameter]float64, depth int) (float64, bool) {
 	v = c19Strip(v)
+	if pr, ok := v.(*ssa.Parameter); ok && env != nil {
+		f, has := env[pr]
+		return f, has
+	}
 	switch x := v.(type) {
 	case *ssa.Const:
 		if x.Value != nil && (x.Value.Kind() == constant.Int || x.Value.Kind() == constant.Float) {
@@ -720,8 +740,8 @@ func c19Eval(v ssa.Value, probe int, leaves map[string]float64, callLeaves map[s
 			return f, true
 		}
 	case *ssa.BinOp:
-		a, ok1 := c19Eval(x.X, probe, leaves, callLeaves)
-		b, ok2 := c19Eval(x.Y, probe, leaves, callLeaves)
+		a, ok1 := c19EvalEnv(x.X, probe, leaves, callLeaves, env, depth)
+		b, ok2 := c19EvalEnv(x.Y, probe, leaves, callLeaves, env, depth)
 		if !ok1 || !ok2 {
 			return 0, false
 		}
@@ -738,7 +758,7 @@ func c19Eval(v ssa.Value, probe int, leaves map[string]float64, callLeaves map[s
 		return 0, false
 	case *ssa.UnOp:
 		if x.Op == token.SUB {
-			a, ok := c19Eval(x.X, probe, leaves, callLeaves)
+			a, ok := c19EvalEnv(x.X, probe, leaves, callLeaves, env, depth)
 			return -a, ok
 		}
 	case *ssa.Call:
@@ -752,7 +772,7 @@ func c19Eval(v ssa.Value, probe int, leaves map[string]float64, callLeaves map[s
 		if (name == "min" || name == "max") && len(x.Call.Args) > 0 {
 			res := 0.0
 			for i, a := range x.Call.Args {
-				f, ok := c19Eval(a, probe, leaves, callLeaves)
+				f, ok := c19EvalEnv(a, probe, leaves, callLeaves, env, depth)
 				if !ok {
 					return 0, false
 				}
@@ -762,6 +782,28 @@ func c19Eval(v ssa.Value, probe int, leaves map[string]float64, callLeaves map[s
 			}
 			return res, true
 		}
+		// single-expression chess-3 helper: evaluate its result over the argument values
+		if fn := x.Call.StaticCallee(); fn != nil && isOwn(fn) && len(fn.Blocks) == 1 && len(fn.Params) == len(x.Call.Args) && depth < 3 {
+			if ret, ok := fn.Blocks[0].Instrs[len(fn.Blocks[0].Instrs)-1].(*ssa.Return); ok && len(ret.Results) == 1 {
+				ne := map[*ssa.Parameter]float64{}
+				okArgs := true
+				for i, a := range x.Call.Args {
+					f, ok := c19EvalEnv(a, probe, leaves, callLeaves, env, depth)
+					if !ok {
+						okArgs = false
+					}
+					ne[fn.Params[i]] = f
+				}
+				if okArgs {
+					if f, ok := c19EvalEnv(ret.Results[0], probe, leaves, callLeaves, ne, depth+1); ok {
+						return f, true
+					}
+				}
+			}
+		}
+	}
+	if env != nil {
+		return 0, false // a non-parameter leaf inside an inlined helper has no caller-side name
 	}
 	op := false
 	key := c19Norm(v, &op, 0)
@@ -957,11 +999,7 @@ func c19R2(c *Ctx, p *Prog, inst *ssa.Function) {
 				case r.x == nil || c19Strip(r.x) != nParam:
 					c.Undec(rule, sgSpec+"#index", ia.Pos(), "the table index is not a clamp (min/max nest or single-expression helper) of the function's argument")
 				case r.lo == nil || r.hi == nil:
-					if arr, isArr := g.Type().Underlying().(*types.Pointer).Elem().Underlying().(*types.Array); isArr && r.lo == nil && r.hi == nil && arr.Len() == int64(len(tab)) {
-						c.Fail(rule, sgSpec+"#index", ia.Pos(), "the table is indexed with the unclamped argument: king-attack scores outside 0..%d panic in the engine while the tuner's closed form is defined everywhere", len(tab)-1)
-					} else {
-						c.Undec(rule, sgSpec+"#index", ia.Pos(), "the table index is clamped on one side only, or by non-constant bounds")
-					}
+					c.Undec(rule, sgSpec+"#index", ia.Pos(), "the table index is not clamped to constants on both sides inside sigmoidal (the table has %d entries): cannot tell that king-attack scores outside the table behave like the tuner's closed form, which is defined everywhere", len(tab))
 				default:
 					c.Check(*r.lo == 0 && *r.hi == int64(len(tab))-1, rule, sgSpec+"#index", ia.Pos(), "integer branch reads sigm[clamp(n, %d, %d)]; the table has %d entries (bounds must be 0 and len-1: a narrower clamp makes the top entries unreachable, a wider one indexes out of range)", *r.lo, *r.hi, len(tab))
 				}
@@ -1084,55 +1122,97 @@ func c19FloatConst(v ssa.Value) (float64, bool) {
 
 // c19Sigmoid matches c1/(1+exp(-c2*(n-c3))) and returns the constants by role.
 func c19Sigmoid(v, n ssa.Value) (c1, c2, c3 float64, why string) {
-	q, ok := c19Strip(v).(*ssa.BinOp)
+	// res sees through conversions and inlines single-expression chess-3 helpers (parameters bound to arguments)
+	binds := map[*ssa.Parameter]ssa.Value{}
+	res := func(v ssa.Value) ssa.Value {
+		for d := 0; d < 8; d++ {
+			v = c19Strip(v)
+			if pr, ok := v.(*ssa.Parameter); ok {
+				if b, has := binds[pr]; has {
+					v = b
+					continue
+				}
+			}
+			if call, ok := v.(*ssa.Call); ok {
+				if fn := call.Call.StaticCallee(); fn != nil && isOwn(fn) && len(fn.Blocks) == 1 && len(fn.Params) == len(call.Call.Args) {
+					if ret, ok := fn.Blocks[0].Instrs[len(fn.Blocks[0].Instrs)-1].(*ssa.Return); ok && len(ret.Results) == 1 {
+						clash := false
+						for i, pr := range fn.Params {
+							if b, has := binds[pr]; has && b != call.Call.Args[i] {
+								clash = true
+							}
+						}
+						if !clash {
+							for i, pr := range fn.Params {
+								binds[pr] = call.Call.Args[i]
+							}
+							v = ret.Results[0]
+							continue
+						}
+					}
+				}
+			}
+			return v
+		}
+		return v
+	}
+	konst := func(v ssa.Value) (float64, bool) {
+		v = res(v)
+		if u, ok := v.(*ssa.UnOp); ok && u.Op == token.SUB {
+			f, ok := c19FloatConst(res(u.X))
+			return -f, ok
+		}
+		return c19FloatConst(v)
+	}
+	q, ok := res(v).(*ssa.BinOp)
 	if !ok || q.Op != token.QUO {
 		return 0, 0, 0, "result is not a quotient"
 	}
-	if c1, ok = c19FloatConst(q.X); !ok {
+	if c1, ok = konst(q.X); !ok {
 		return 0, 0, 0, "numerator is not a constant"
 	}
-	d, ok := c19Strip(q.Y).(*ssa.BinOp)
+	d, ok := res(q.Y).(*ssa.BinOp)
 	if !ok || d.Op != token.ADD {
 		return 0, 0, 0, "denominator is not a sum"
 	}
 	var ex ssa.Value
-	if k, isK := c19FloatConst(d.X); isK && k == 1 {
+	if k, isK := konst(d.X); isK && k == 1 {
 		ex = d.Y
-	} else if k, isK := c19FloatConst(d.Y); isK && k == 1 {
+	} else if k, isK := konst(d.Y); isK && k == 1 {
 		ex = d.X
 	} else {
 		return 0, 0, 0, "denominator is not 1 + …"
 	}
-	call, ok := c19Strip(ex).(*ssa.Call)
+	call, ok := res(ex).(*ssa.Call)
 	if !ok || call.Call.StaticCallee() == nil || call.Call.StaticCallee().String() != "math.Exp" || len(call.Call.Args) != 1 {
 		return 0, 0, 0, "denominator is not 1 + math.Exp(…)"
 	}
-	arg := c19Strip(call.Call.Args[0])
+	arg := res(call.Call.Args[0])
 	sign := 1.0 // exponent = sign * k * (n - c3)
 	if u, ok := arg.(*ssa.UnOp); ok && u.Op == token.SUB {
-		sign, arg = -1, c19Strip(u.X)
+		sign, arg = -1, res(u.X)
 	}
 	m, ok := arg.(*ssa.BinOp)
 	if !ok || m.Op != token.MUL {
 		return 0, 0, 0, "exponent is not a product"
 	}
-	k, isK := c19FloatConst(m.X)
+	k, isK := konst(m.X)
 	diff := m.Y
 	if !isK {
-		k, isK = c19FloatConst(m.Y)
+		k, isK = konst(m.Y)
 		diff = m.X
 	}
 	if !isK {
 		return 0, 0, 0, "exponent has no constant slope"
 	}
-	s, ok := c19Strip(diff).(*ssa.BinOp)
+	s, ok := res(diff).(*ssa.BinOp)
 	if !ok || s.Op != token.SUB {
 		return 0, 0, 0, "exponent is not slope*(n - midpoint)"
 	}
-	if c19Strip(s.X) == n {
-		c3, ok = c19FloatConst(s.Y)
-	} else if c19Strip(s.Y) == n {
-		c3, ok = c19FloatConst(s.X)
+	if res(s.X) == n {
+		c3, ok = konst(s.Y)
+	} else if res(s.Y) == n {
+		c3, ok = konst(s.X)
 		sign = -sign
 	} else {
 		ok = false
@@ -1151,6 +1231,9 @@ type c19Trav struct {
 	rule   string
 	name   string // short name used in construct keys
 	orders *[]c19Order
+	// when the field walk lives in a shared iterator (range-over-func): the
+	// iterator's closure and the loop-body function the fields are yielded to
+	iter, body *ssa.Function
 }
 
 func (t *c19Trav) key(role string) string { return t.name + "#" + role }
@@ -1211,7 +1294,7 @@ func (t *c19Trav) top(fc *ssa.Call, role string, filtered bool) (*ssa.Call, int)
 	lp, status, why := c19Asc(args[0])
 	*t.orders = append(*t.orders, c19Order{t.key(role + ".order"), fc.Pos(), status, why})
 	if lp == nil {
-		return c19HelperOf(fc)
+		return t.consumer(fc)
 	}
 	okB := true
 	for _, b := range lp.bounds {
@@ -1279,7 +1362,7 @@ func (t *c19Trav) top(fc *ssa.Call, role string, filtered bool) (*ssa.Call, int)
 	default:
 		c.Fail(rule, t.key(role+".filter"), fc.Pos(), "field is visited under %q, the sibling traversals use %q: the traversals select different fields and vector positions shift", got, want)
 	}
-	return c19HelperOf(fc)
+	return t.consumer(fc)
 }
 
 func c19RelQual(pk *types.Package) string { return relPkg(pk.Path()) }
@@ -1315,6 +1398,66 @@ func c19ContainsArgs(cond ssa.Value) (a0, a1 ssa.Value, ok bool) {
 		}
 	}
 	return out[0], out[1], out[0] != nil && out[1] != nil
+}
+
+// consumer: the helper call the selected field value reaches — directly, or as
+// the parameter of the range-over-func body the shared iterator yields it to.
+func (t *c19Trav) consumer(fc *ssa.Call) (*ssa.Call, int) {
+	if hc, pos := c19HelperOf(fc); hc != nil {
+		return hc, pos
+	}
+	if t.iter == nil || t.body == nil || len(t.iter.Params) != 1 || len(t.body.Params) != 1 {
+		return nil, -1
+	}
+	n := 0
+	for _, r := range c19Refs(fc) {
+		if call, ok := r.(*ssa.Call); ok && c19Res(call.Call.Value) == ssa.Value(t.iter.Params[0]) && len(call.Call.Args) == 1 && call.Call.Args[0] == ssa.Value(fc) {
+			n++
+		}
+	}
+	if n != 1 {
+		return nil, -1
+	}
+	return c19HelperOf(t.body.Params[0])
+}
+
+// c19IterCall recognises, in fn, `it(args…)(body)`: a chess-3 function returning an
+// iterator closure that is immediately applied to a (range-over-func) body closure.
+func c19IterCall(fn *ssa.Function) (mk *ssa.Call, iter, body *ssa.Function) {
+	n := 0
+	for _, f := range withClosures(fn) {
+		allInstrs(f, func(in ssa.Instruction) {
+			app, ok := in.(*ssa.Call)
+			if !ok || len(app.Call.Args) != 1 {
+				return
+			}
+			inner, ok := c19Strip(app.Call.Value).(*ssa.Call)
+			if !ok {
+				return
+			}
+			it := inner.Call.StaticCallee()
+			bc, isMC := c19Strip(app.Call.Args[0]).(*ssa.MakeClosure)
+			if it == nil || !isOwn(it) || !isMC || len(it.Params) != len(inner.Call.Args) {
+				return
+			}
+			var cl *ssa.Function
+			for _, r := range c19Returns(it.Blocks) {
+				if len(r.Results) == 1 {
+					if mc, ok := c19Strip(r.Results[0]).(*ssa.MakeClosure); ok {
+						cl, _ = mc.Fn.(*ssa.Function)
+					}
+				}
+			}
+			if b, ok := bc.Fn.(*ssa.Function); ok && cl != nil {
+				mk, iter, body = inner, cl, b
+				n++
+			}
+		})
+	}
+	if n != 1 {
+		return nil, nil, nil
+	}
+	return
 }
 
 // c19HelperOf: the own function the reflect.Value v is handed to.
@@ -1435,15 +1578,36 @@ func c19R3(c *Ctx, p *Prog) {
 	}
 	done := 0
 	mk := func(name string) *c19Trav { return &c19Trav{c: c, p: p, rule: rule, name: name, orders: &orders} }
+	var binds []*ssa.Parameter
+	unbind := func() {
+		for _, pr := range binds {
+			c19Binds.Delete(pr)
+		}
+		binds = nil
+	}
+	defer unbind()
 	single := func(t *c19Trav, spec string, filtered bool) (fn *ssa.Function, hc *ssa.Call, pos int) {
+		unbind()
 		fn = p.Func(spec)
 		if fn == nil {
 			c.Anchor(rule, spec)
 			return nil, nil, -1
 		}
 		sites := c19FieldSites(fn)
+		if len(sites) == 0 {
+			// the walk may live in a shared iterator: for f := range fields(structV, targets) { … }
+			if mkc, it, body := c19IterCall(fn); mkc != nil {
+				maker := mkc.Call.StaticCallee()
+				for i, pr := range maker.Params {
+					c19Binds.Store(pr, mkc.Call.Args[i])
+					binds = append(binds, pr)
+				}
+				t.iter, t.body = it, body
+				sites = c19FieldSites(maker)
+			}
+		}
 		if len(sites) != 1 {
-			c.Undec(rule, t.key("field"), fn.Pos(), "%s: expected exactly one reflect.Value.Field(i) site, found %d", spec, len(sites))
+			c.Undec(rule, t.key("field"), fn.Pos(), "%s: expected exactly one reflect.Value.Field(i) site (in the function or in a field iterator it ranges over), found %d", spec, len(sites))
 			return fn, nil, -1
 		}
 		hc, pos = t.top(sites[0], "field", filtered)
@@ -1489,7 +1653,9 @@ func c19R3(c *Ctx, p *Prog) {
 
 	// --- SetVector / setFieldFloats ---
 	sv := mk("SetVector")
-	if fn, hc, pos := single(sv, c19Tun+".(*EngineRep).SetVector", true); hc != nil && len(hc.Call.Args) == 2 {
+	if fn, hc, pos := single(sv, c19Tun+".(*EngineRep).SetVector", true); hc != nil && len(hc.Call.Args) != 2 {
+		c.Undec(rule, sv.key("helper"), hc.Pos(), "SetVector: the helper is expected to take the field and the remaining vector")
+	} else if hc != nil {
 		h := hc.Call.StaticCallee()
 		fIdx := 1 - pos
 		rec := sv.array(h, []int{pos})
@@ -1576,46 +1742,10 @@ func c19R3(c *Ctx, p *Prog) {
 
 	// --- TunedParams / yieldFields ---
 	tp := mk("TunedParams")
-	if fn, hc, pos := single(tp, c19Tun+".(*EngineRep).TunedParams", true); hc != nil && len(hc.Call.Args) == 3 {
-		h := hc.Call.StaticCallee()
-		rec := tp.array(h, []int{pos})
-		v := ssa.Value(h.Params[pos])
-		yIdx, cIdx := -1, -1
-		for i, pr := range h.Params {
-			if i == pos {
-				continue
-			}
-			if _, ok := pr.Type().Underlying().(*types.Signature); ok {
-				yIdx = i
-			} else if _, ok := pr.Type().Underlying().(*types.Pointer); ok {
-				cIdx = i
-			}
-		}
-		if yIdx < 0 || cIdx < 0 {
-			c.Undec(rule, tp.key("leaf"), h.Pos(), "%s: expected (yield func, counter *int, v reflect.Value) parameters", fnName(h))
-		} else {
-			tp.yieldLeaf(h, v, h.Params[yIdx], h.Params[cIdx], kF64, &done)
-			if rec != nil {
-				c.Check(rec.Call.Args[yIdx] == ssa.Value(h.Params[yIdx]) && rec.Call.Args[cIdx] == ssa.Value(h.Params[cIdx]), rule, tp.key("array.pass"), rec.Pos(), "%s: the recursion passes on the same yield function and the same counter", fnName(h))
-			}
-			// top: counter is a fresh cell initialised to 0, yield is the iterator's own parameter
-			cl := hc.Parent()
-			cell := c19Cell(hc.Call.Args[cIdx])
-			okCnt := false
-			if cell != nil {
-				if st := c19CellStores(cell); len(st) == 1 && c19IsZero(st[0].Val) && (st[0].Parent() == fn || st[0].Parent() == cl) {
-					okCnt = true
-				}
-			}
-			okY := len(cl.Params) == 1 && hc.Call.Args[yIdx] == ssa.Value(cl.Params[0])
-			if okCnt && okY {
-				c.Ok(rule, tp.key("counter"), hc.Pos(), "TunedParams numbers the leaves from a counter initialised to 0 and hands every leaf to the consumer's yield")
-				done++
-			} else {
-				c.Undec(rule, tp.key("counter"), hc.Pos(), "the counter handed to %s is not a local cell initialised once to 0, or the yield is not the iterator's own parameter", fnName(h))
-			}
-		}
+	if fn, hc, pos := single(tp, c19Tun+".(*EngineRep).TunedParams", true); hc != nil {
+		c19Tuned(tp, fn, hc, pos, kF64, &done)
 	}
+	unbind()
 
 	// --- EngineCoeffs / convert ---
 	ec := mk("EngineCoeffs")
@@ -1653,8 +1783,8 @@ func c19R3(c *Ctx, p *Prog) {
 			c.Undec(rule, o.construct, o.pos, "%s: order of this traversal not recognised", o.why)
 		}
 	}
-	c.Floor(rule+".order", nAsc, 9, "ascending loops (5 field walks: ToVector, SetVector, TunedParams, both sides of EngineCoeffs; 4 array walks)")
-	c.Floor(rule, done, 13, "leaf / concatenation / advance / counter obligations discharged")
+	c.Floor(rule+".order", nAsc, 4, "ascending loops (today 9: field walks of ToVector, SetVector, TunedParams and both sides of EngineCoeffs, 4 array walks; a shared field iterator is counted per user)")
+	c.Floor(rule, done, 8, "leaf / concatenation / advance / counter obligations discharged (today 13)")
 }
 
 // c19SliceLit: v is a slice over a fresh array literal; returns its length and the (single) stored element value.
@@ -1757,6 +1887,20 @@ func (t *c19Trav) appendTop(hc *ssa.Call, done *int) {
 	}
 }
 
+// c19StoreBetween: a store to cell lies between a and b in their common block.
+func c19StoreBetween(cell *ssa.Alloc, a, b ssa.Instruction) bool {
+	if a.Block() != b.Block() {
+		return true
+	}
+	lo, hi := instrIndex(a), instrIndex(b)
+	for _, in := range a.Block().Instrs[lo+1 : hi] {
+		if st, ok := in.(*ssa.Store); ok && c19Cell(st.Addr) == cell {
+			return true
+		}
+	}
+	return false
+}
+
 func c19ValueOf(in ssa.Instruction) ssa.Value {
 	v, _ := in.(ssa.Value)
 	return v
@@ -1788,6 +1932,37 @@ func (t *c19Trav) advance(F ssa.Value, call *ssa.Call, isInit func(ssa.Value) bo
 			c.Undec(rule, t.key(role), call.Pos(), "the slice handed to %s is the input re-sliced at an offset that is not the running sum of the helper's counts", call.Call.Value.Name())
 		}
 		return
+	}
+	// cell form: the remaining slice lives in a captured variable (range-over-func body)
+	if ld, ok := F.(*ssa.UnOp); ok && ld.Op == token.MUL {
+		if cell := c19Cell(ld.X); cell != nil {
+			adv, inits := 0, 0
+			for _, st := range c19CellStores(cell) {
+				if sl, ok := st.Val.(*ssa.Slice); ok {
+					if l2, ok := sl.X.(*ssa.UnOp); ok && l2.Op == token.MUL && c19Cell(l2.X) == cell {
+						if sl.Low == ssa.Value(call) && sl.High == nil && sl.Max == nil && instrDominates(call, st) && !c19StoreBetween(cell, ld, call) {
+							adv++
+							continue
+						}
+						c.Fail(rule, t.key(role), sl.Pos(), "after %s the remaining vector is re-sliced by %v, not by the count the helper returned: following coefficients read from the wrong offset", call.Call.Value.Name(), sl.Low)
+						return
+					}
+				}
+				if isInit(st.Val) && st.Parent() != call.Parent() {
+					inits++
+					continue
+				}
+				c.Undec(rule, t.key(role), st.Pos(), "the remaining-vector variable is assigned %s, which the rule does not understand", st.Val.String())
+				return
+			}
+			if adv == 1 && inits == 1 {
+				c.Ok(rule, t.key(role), call.Pos(), "the remaining vector starts as the whole input and is advanced by exactly the count %s returns", call.Call.Value.Name())
+				*done++
+			} else {
+				c.Undec(rule, t.key(role), call.Pos(), "expected one advancing re-slice and one initial assignment of the remaining-vector variable, found %d / %d", adv, inits)
+			}
+			return
+		}
 	}
 	phis, leaves := c19PhiClosure(F)
 	if _, ok := F.(*ssa.Phi); !ok {
@@ -1821,33 +1996,147 @@ func (t *c19Trav) advance(F ssa.Value, call *ssa.Call, isInit func(ssa.Value) bo
 	}
 }
 
-// yieldLeaf: under Kind()==Float64, yield(*cnt, &leaf) is called with the counter
-// value from before the single increment, and the increment happens on every path
-// that goes on iterating.
-func (t *c19Trav) yieldLeaf(h *ssa.Function, v ssa.Value, yield, cnt *ssa.Parameter, kF64 int64, done *int) {
-	c, rule := t.c, t.rule
-	var ycalls []*ssa.Call
-	var stores []*ssa.Store
-	allInstrs(h, func(in ssa.Instruction) {
-		switch x := in.(type) {
-		case *ssa.Call:
-			if x.Call.Value == ssa.Value(yield) {
-				ycalls = append(ycalls, x)
-			}
-		case *ssa.Store:
-			if x.Addr == ssa.Value(cnt) {
-				stores = append(stores, x)
-			}
+// c19Tuned: the numbering of TunedParams. Either the helper itself counts (yield
+// func(int,*float64), cnt *int), or it yields bare pointers to a counting closure
+// that wraps the consumer's yield.
+func c19Tuned(tp *c19Trav, fn *ssa.Function, hc *ssa.Call, pos int, kF64 int64, done *int) {
+	c, rule := tp.c, tp.rule
+	h := hc.Call.StaticCallee()
+	rec := tp.array(h, []int{pos})
+	v := ssa.Value(h.Params[pos])
+	yIdx, cIdx := -1, -1
+	for i, pr := range h.Params {
+		if i == pos {
+			continue
 		}
-	})
-	if len(ycalls) != 1 || len(ycalls[0].Call.Args) != 2 || !c19Guarded(ycalls[0].Block(), v, kF64) {
-		c.Undec(rule, t.key("leaf"), h.Pos(), "%s: expected exactly one call of yield, under Kind()==Float64, found %d", fnName(h), len(ycalls))
+		if _, ok := pr.Type().Underlying().(*types.Signature); ok {
+			yIdx = i
+		} else if _, ok := pr.Type().Underlying().(*types.Pointer); ok {
+			cIdx = i
+		}
+	}
+	// the consumer's yield: the func(int, *float64) bool parameter of the iterator closure TunedParams returns
+	own := map[*ssa.Function]bool{}
+	for _, f := range withClosures(fn) {
+		own[f] = true
+	}
+	isConsumerYield := func(v ssa.Value) bool {
+		pr, ok := c19Res(v).(*ssa.Parameter)
+		if !ok || !own[pr.Parent()] || pr.Parent() == fn {
+			return false
+		}
+		sig, ok := pr.Type().Underlying().(*types.Signature)
+		return ok && sig.Params().Len() == 2 && types.Identical(sig.Params().At(0).Type(), types.Typ[types.Int])
+	}
+	if yIdx < 0 || len(hc.Call.Args) != len(h.Params) {
+		c.Undec(rule, tp.key("leaf"), h.Pos(), "%s: expected a yield function parameter next to the reflect.Value", fnName(h))
 		return
 	}
+	if rec != nil {
+		okPass := rec.Call.Args[yIdx] == ssa.Value(h.Params[yIdx]) && (cIdx < 0 || rec.Call.Args[cIdx] == ssa.Value(h.Params[cIdx]))
+		c.Check(okPass, rule, tp.key("array.pass"), rec.Pos(), "%s: the recursion passes on the same yield function (and counter)", fnName(h))
+	}
+	var cntAddr ssa.Value
+	var incr *ssa.Store
+	var g *ssa.Function
+	if cIdx >= 0 {
+		// the helper counts
+		yc := tp.leafYield(h, v, h.Params[yIdx], 2, kF64, done)
+		if yc == nil {
+			return
+		}
+		cntAddr, incr = tp.countLogic(h, yc, done)
+		if cntAddr == nil {
+			return
+		}
+		if cntAddr != ssa.Value(h.Params[cIdx]) || !isConsumerYield(hc.Call.Args[yIdx]) {
+			c.Undec(rule, tp.key("counter"), hc.Pos(), "the counter read by %s is not its pointer parameter, or the yield handed to it is not the iterator's own parameter", fnName(h))
+			return
+		}
+		cntAddr, g = hc.Call.Args[cIdx], h
+	} else {
+		// the helper yields bare pointers; a closure around the consumer's yield counts
+		yc := tp.leafYield(h, v, h.Params[yIdx], 1, kF64, done)
+		if yc == nil {
+			return
+		}
+		for _, r := range c19Returns(c19LeafBlocks(h, v, kF64)) {
+			okR := len(r.Results) == 1 && r.Results[0] == ssa.Value(yc)
+			if k, isK := constOf(r.Results[0]); !okR && isK && len(r.Results) == 1 {
+				for _, ce := range controllingConds(r.Block()) {
+					if ce.Cond == ssa.Value(yc) && ce.True == (k != 0) {
+						okR = true
+					}
+				}
+			}
+			if !okR {
+				c.Undec(rule, tp.key("leaf.result"), r.Pos(), "%s: the Float64 case does not return what yield returned: a consumer's stop (or go-on) is not propagated", fnName(h))
+				return
+			}
+		}
+		mc, isMC := c19Res(hc.Call.Args[yIdx]).(*ssa.MakeClosure)
+		if isMC {
+			g, _ = mc.Fn.(*ssa.Function)
+		}
+		if g == nil || len(g.Params) != 1 {
+			c.Undec(rule, tp.key("counter"), hc.Pos(), "the yield handed to %s is neither counting itself nor a local closure with one parameter", fnName(h))
+			return
+		}
+		var ycs []*ssa.Call
+		allInstrs(g, func(in ssa.Instruction) {
+			if x, ok := in.(*ssa.Call); ok && isConsumerYield(x.Call.Value) {
+				ycs = append(ycs, x)
+			}
+		})
+		if len(ycs) != 1 || len(ycs[0].Call.Args) != 2 || ycs[0].Call.Args[1] != ssa.Value(g.Params[0]) {
+			c.Undec(rule, tp.key("counter"), g.Pos(), "%s: expected exactly one call yield(counter, param) of the consumer's yield with the closure's own parameter", fnName(g))
+			return
+		}
+		cntAddr, incr = tp.countLogic(g, ycs[0], done)
+		if cntAddr == nil {
+			return
+		}
+	}
+	// the counter is a variable of TunedParams (or of the iterator closure) initialised once to 0
+	cell := c19Cell(cntAddr)
+	okCnt := cell != nil
+	inits := 0
+	if cell != nil {
+		for _, st := range c19CellStores(cell) {
+			switch {
+			case st == incr:
+			case c19IsZero(st.Val) && own[st.Parent()] && st.Parent() != g:
+				inits++
+			default:
+				okCnt = false
+			}
+		}
+	}
+	if okCnt && inits == 1 {
+		c.Ok(rule, tp.key("counter"), hc.Pos(), "TunedParams numbers the leaves from a counter initialised to 0 and hands every leaf to the consumer's yield")
+		*done++
+	} else {
+		c.Undec(rule, tp.key("counter"), hc.Pos(), "the counter of %s is not a local variable assigned only its initial 0 and the increment", fnName(g))
+	}
+}
+
+// leafYield: under Kind(v)==Float64 helper h calls its yield-like parameter exactly
+// once, the last argument being v.Addr().Interface().(*float64), the leaf itself.
+func (t *c19Trav) leafYield(h *ssa.Function, v ssa.Value, yield *ssa.Parameter, nargs int, kF64 int64, done *int) *ssa.Call {
+	c, rule := t.c, t.rule
+	var ycalls []*ssa.Call
+	allInstrs(h, func(in ssa.Instruction) {
+		if x, ok := in.(*ssa.Call); ok && x.Call.Value == ssa.Value(yield) {
+			ycalls = append(ycalls, x)
+		}
+	})
+	if len(ycalls) != 1 || len(ycalls[0].Call.Args) != nargs || !c19Guarded(ycalls[0].Block(), v, kF64) {
+		c.Undec(rule, t.key("leaf"), h.Pos(), "%s: expected exactly one call of yield with %d argument(s), under Kind()==Float64, found %d call(s)", fnName(h), nargs, len(ycalls))
+		return nil
+	}
 	yc := ycalls[0]
-	// pointer argument: v.Addr().Interface().(*float64)
 	okPtr := false
-	if ta, ok := yc.Call.Args[1].(*ssa.TypeAssert); ok {
+	if ta, ok := yc.Call.Args[nargs-1].(*ssa.TypeAssert); ok {
 		if n1, r1, _, ok := c19Refl(ta.X); ok && n1 == "Value.Interface" {
 			if n2, r2, _, ok := c19Refl(r1); ok && n2 == "Value.Addr" && r2 == v {
 				okPtr = true
@@ -1860,15 +2149,42 @@ func (t *c19Trav) yieldLeaf(h *ssa.Function, v ssa.Value, yield, cnt *ssa.Parame
 	} else {
 		c.Undec(rule, t.key("leaf"), yc.Pos(), "%s: the pointer yielded is not v.Addr().Interface().(*float64) of the leaf", fnName(h))
 	}
-	// index argument and increment
-	ld, isLd := yc.Call.Args[0].(*ssa.UnOp)
-	if !isLd || ld.Op != token.MUL || ld.X != ssa.Value(cnt) {
-		c.Undec(rule, t.key("leaf.index"), yc.Pos(), "%s: the index yielded is not the current value of the counter (*cnt)", fnName(h))
-		return
+	return yc
+}
+
+func c19AddrEq(a, b ssa.Value) bool {
+	if a == b {
+		return true
 	}
+	ca := c19Cell(a)
+	return ca != nil && ca == c19Cell(b)
+}
+
+// countLogic: in g the consumer's yield is called (yc) with the counter's current
+// value; the counter (a *int parameter or a captured variable) is incremented
+// exactly once, after that call, on every path that goes on iterating. Returns the counter's address.
+func (t *c19Trav) countLogic(g *ssa.Function, yc *ssa.Call, done *int) (ssa.Value, *ssa.Store) {
+	c, rule := t.c, t.rule
+	ld, isLd := yc.Call.Args[0].(*ssa.UnOp)
+	if !isLd || ld.Op != token.MUL {
+		c.Undec(rule, t.key("leaf.index"), yc.Pos(), "%s: the index yielded is not the current value of a counter variable", fnName(g))
+		return nil, nil
+	}
+	cnt := ld.X
+	_, isParam := cnt.(*ssa.Parameter)
+	if !isParam && c19Cell(cnt) == nil {
+		c.Undec(rule, t.key("leaf.index"), yc.Pos(), "%s: the index yielded is loaded from %s, neither a pointer parameter nor a local/captured variable", fnName(g), cnt.String())
+		return nil, nil
+	}
+	var stores []*ssa.Store
+	allInstrs(g, func(in ssa.Instruction) {
+		if x, ok := in.(*ssa.Store); ok && c19AddrEq(x.Addr, cnt) {
+			stores = append(stores, x)
+		}
+	})
 	if len(stores) != 1 {
-		c.Undec(rule, t.key("leaf.index"), yc.Pos(), "%s: expected exactly one store to the counter, found %d", fnName(h), len(stores))
-		return
+		c.Undec(rule, t.key("leaf.index"), yc.Pos(), "%s: expected exactly one store to the counter, found %d", fnName(g), len(stores))
+		return nil, nil
 	}
 	st := stores[0]
 	inc, isInc := st.Val.(*ssa.BinOp)
@@ -1877,18 +2193,18 @@ func (t *c19Trav) yieldLeaf(h *ssa.Function, v ssa.Value, yield, cnt *ssa.Parame
 		for _, pr := range [][2]ssa.Value{{inc.X, inc.Y}, {inc.Y, inc.X}} {
 			l, isL := pr[0].(*ssa.UnOp)
 			k, isK := constOf(pr[1])
-			if isL && l.Op == token.MUL && l.X == ssa.Value(cnt) && isK && k == 1 {
+			if isL && l.Op == token.MUL && c19AddrEq(l.X, cnt) && isK && k == 1 {
 				okInc = true
 			}
 		}
 	}
 	if !okInc {
-		c.Undec(rule, t.key("leaf.index"), st.Pos(), "%s: the counter is not updated by *cnt = *cnt + 1", fnName(h))
-		return
+		c.Undec(rule, t.key("leaf.index"), st.Pos(), "%s: the counter is not updated by cnt = cnt + 1", fnName(g))
+		return nil, nil
 	}
 	if !instrDominates(yc, st) {
-		c.Fail(rule, t.key("leaf.index"), st.Pos(), "%s: the counter is incremented before (or independently of) the yield that reports it: parameter k is reported with another index than its position in ToVector's vector, so its gradient lands on a neighbour", fnName(h))
-		return
+		c.Fail(rule, t.key("leaf.index"), st.Pos(), "%s: the counter is incremented before (or independently of) the yield that reports it: parameter k is reported with another index than its position in ToVector's vector, so its gradient lands on a neighbour", fnName(g))
+		return nil, nil
 	}
 	// every return reachable from the yield without passing the increment must stop the iteration (return false)
 	bad := ""
@@ -1900,7 +2216,7 @@ func (t *c19Trav) yieldLeaf(h *ssa.Function, v ssa.Value, yield, cnt *ssa.Parame
 				return
 			}
 			if r, ok := b.Instrs[i].(*ssa.Return); ok {
-				if k, isK := constOf(r.Results[0]); !isK || k != 0 {
+				if k, isK := constOf(r.Results[0]); len(r.Results) != 1 || !isK || k != 0 {
 					bad = c19Rel(t.p, r.Pos())
 				}
 				return
@@ -1915,11 +2231,12 @@ func (t *c19Trav) yieldLeaf(h *ssa.Function, v ssa.Value, yield, cnt *ssa.Parame
 	}
 	dfs(yc.Block(), instrIndex(yc)+1)
 	if bad != "" {
-		c.Fail(rule, t.key("leaf.index"), st.Pos(), "%s: iteration can continue after a leaf without incrementing the counter (return at %s): the next leaf is reported with the same index", fnName(h), bad)
-		return
+		c.Fail(rule, t.key("leaf.index"), st.Pos(), "%s: iteration can continue after a leaf without incrementing the counter (return at %s): the next leaf is reported with the same index", fnName(g), bad)
+		return nil, nil
 	}
-	c.Ok(rule, t.key("leaf.index"), yc.Pos(), "%s: yields the counter's value from before its single increment, and increments on every path that continues the iteration", fnName(h))
+	c.Ok(rule, t.key("leaf.index"), yc.Pos(), "%s: yields the counter's value from before its single increment, and increments on every path that continues the iteration", fnName(g))
 	*done++
+	return cnt, st
 }
 
 func c19Rel(p *Prog, pos token.Pos) string { return p.Rel(pos) }
@@ -2219,11 +2536,69 @@ func c19R6(c *Ctx, p *Prog) {
 		}
 	}
 	n := 0
+	// sign-multiplier form: score * sign with sign ∈ {1, -1} merged from the two cases
+	var outs2 []out
 	for _, o := range outs {
-		neg := false
+		m, ok := o.v.(*ssa.BinOp)
+		if !ok || m.Op != token.MUL {
+			outs2 = append(outs2, o)
+			continue
+		}
+		sgn := m.Y
+		if m.Y == score {
+			sgn = m.X
+		} else if m.X != score {
+			outs2 = append(outs2, o)
+			continue
+		}
+		// table form: score * [2]float64{1, -1}[b.STM] (a local literal indexed by the side to move)
+		if ld, isLd := sgn.(*ssa.UnOp); isLd && ld.Op == token.MUL {
+			if ia, ok := ld.X.(*ssa.IndexAddr); ok {
+				tab, isTab := ia.X.(*ssa.Alloc)
+				idx, isIdx := c19Strip(ia.Index).(*ssa.UnOp)
+				if isTab && isIdx && okW && isFieldLoad(idx, "Board.STM") && idx.X.(*ssa.FieldAddr).X == ssa.Value(fn.Params[1]) && calls[0].Call.Args[0] == ssa.Value(fn.Params[1]) {
+					vals, clean := c19ArrayLit(tab, 0)
+					fb, hb := vals[black]
+					fw, hw := vals[white]
+					if clean && hb && hw && math.Abs(fb) == 1 && math.Abs(fw) == 1 {
+						for _, e := range []struct {
+							f float64
+							s int
+						}{{fb, 1}, {fw, -1}} {
+							d := "sign"
+							if e.f < 0 {
+								d = "sign-neg"
+							}
+							outs2 = append(outs2, out{score, e.s, o.pos, d})
+						}
+						continue
+					}
+				}
+			}
+		}
+		ph, isPhi := sgn.(*ssa.Phi)
+		if !isPhi {
+			outs2 = append(outs2, o)
+			continue
+		}
+		for i, e := range ph.Edges {
+			k, isK := c19FloatConst(e)
+			switch {
+			case isK && k == 1:
+				outs2 = append(outs2, out{score, sense(ph.Block().Preds[i], ph.Block()), o.pos, "sign"})
+			case isK && k == -1:
+				outs2 = append(outs2, out{score, sense(ph.Block().Preds[i], ph.Block()), o.pos, "sign-neg"})
+			default:
+				outs2 = append(outs2, out{e, 0, o.pos, "sign"})
+			}
+		}
+	}
+	outs = outs2
+	for _, o := range outs {
+		neg := o.desc == "sign-neg"
 		v := o.v
 		if u, ok := v.(*ssa.UnOp); ok && u.Op == token.SUB {
-			neg, v = true, u.X
+			neg, v = !neg, u.X
 		}
 		cons := spec + "#plain"
 		if neg {
@@ -2240,6 +2615,48 @@ func c19R6(c *Ctx, p *Prog) {
 		}
 	}
 	c.Floor(rule, n, 2, "sign cases (negated for Black, plain otherwise)")
+}
+
+// c19ArrayLit: the constant elements of a local array that is only ever
+// initialised (element-wise or by a copy of a literal) and read.
+func c19ArrayLit(tab *ssa.Alloc, depth int) (map[int64]float64, bool) {
+	vals := map[int64]float64{}
+	clean := depth < 3
+	for _, r := range c19Refs(tab) {
+		switch y := r.(type) {
+		case *ssa.IndexAddr:
+			k, isK := constOf(y.Index)
+			for _, u := range c19Refs(y) {
+				if st, isSt := u.(*ssa.Store); isSt && st.Addr == ssa.Value(y) {
+					f, isF := c19FloatConst(st.Val)
+					if _, dup := vals[k]; dup || !isK || !isF {
+						clean = false
+					}
+					vals[k] = f
+				}
+			}
+		case *ssa.Store:
+			src, isLd := y.Val.(*ssa.UnOp)
+			if y.Addr != ssa.Value(tab) || !isLd || src.Op != token.MUL || len(vals) > 0 {
+				clean = false
+				break
+			}
+			lit, isA := src.X.(*ssa.Alloc)
+			if !isA {
+				clean = false
+				break
+			}
+			v2, ok := c19ArrayLit(lit, depth+1)
+			if !ok {
+				clean = false
+			}
+			vals = v2
+		case *ssa.UnOp, *ssa.DebugRef:
+		default:
+			clean = false
+		}
+	}
+	return vals, clean
 }
 
 // ---------- R5 (AST over tools/tuner/client) ----------
@@ -2275,7 +2692,7 @@ func c19R5(c *Ctx, q *Prog) {
 					return true
 				}
 				loops++
-				c19GradLoop(c, q, rule, info, fd, rs, call)
+				c19GradLoop(c, q, rule, info, pk.Syntax, fd, rs, call)
 				return true
 			})
 		}
@@ -2445,45 +2862,55 @@ func (a *c19AST) collect(n ast.Node, env c19Env, depth int, out *[]c19Use) {
 	})
 }
 
-func c19GradLoop(c *Ctx, q *Prog, rule string, info *types.Info, fd *ast.FuncDecl, rs *ast.RangeStmt, tpCall *ast.CallExpr) {
+func c19GradLoop(c *Ctx, q *Prog, rule string, info *types.Info, files []*ast.File, fd *ast.FuncDecl, rs *ast.RangeStmt, tpCall *ast.CallExpr) {
 	fname := "client." + fd.Name.Name
 	a := &c19AST{q: q, info: info, locals: map[types.Object]*ast.FuncLit{}, copies: map[types.Object]ast.Expr{}}
 	if o := info.ObjectOf(fd.Name); o != nil {
 		a.pkg = o.Pkg()
 	}
 	defs := map[types.Object]int{}
-	ast.Inspect(fd.Body, func(n ast.Node) bool {
-		if as, ok := n.(*ast.AssignStmt); ok {
-			for i, l := range as.Lhs {
-				if id, ok := l.(*ast.Ident); ok && i < len(as.Rhs) {
-					o := info.ObjectOf(id)
-					defs[o]++
-					if len(as.Lhs) != len(as.Rhs) || as.Tok != token.DEFINE {
-						continue
-					}
-					switch r := ast.Unparen(as.Rhs[i]).(type) {
-					case *ast.FuncLit:
-						a.locals[o] = r
-					case *ast.Ident, *ast.SelectorExpr:
-						a.copies[o] = r
-					case *ast.UnaryExpr:
-						if _, isId := ast.Unparen(r.X).(*ast.Ident); isId && r.Op == token.AND {
+	var decls []*ast.FuncDecl
+	for _, f := range files {
+		for _, d := range f.Decls {
+			if g, ok := d.(*ast.FuncDecl); ok && g.Body != nil {
+				decls = append(decls, g)
+			}
+		}
+	}
+	for _, g := range decls {
+		ast.Inspect(g.Body, func(n ast.Node) bool {
+			if as, ok := n.(*ast.AssignStmt); ok {
+				for i, l := range as.Lhs {
+					if id, ok := l.(*ast.Ident); ok && i < len(as.Rhs) {
+						o := info.ObjectOf(id)
+						defs[o]++
+						if len(as.Lhs) != len(as.Rhs) || as.Tok != token.DEFINE {
+							continue
+						}
+						switch r := ast.Unparen(as.Rhs[i]).(type) {
+						case *ast.FuncLit:
+							a.locals[o] = r
+						case *ast.Ident, *ast.SelectorExpr:
 							a.copies[o] = r
+						case *ast.UnaryExpr:
+							if _, isId := ast.Unparen(r.X).(*ast.Ident); isId && r.Op == token.AND {
+								a.copies[o] = r
+							}
 						}
 					}
 				}
 			}
-		}
-		return true
-	})
-	ast.Inspect(fd.Body, func(n ast.Node) bool {
-		if inc, ok := n.(*ast.IncDecStmt); ok {
-			if id, ok := ast.Unparen(inc.X).(*ast.Ident); ok {
-				defs[info.ObjectOf(id)]++
+			return true
+		})
+		ast.Inspect(g.Body, func(n ast.Node) bool {
+			if inc, ok := n.(*ast.IncDecStmt); ok {
+				if id, ok := ast.Unparen(inc.X).(*ast.Ident); ok {
+					defs[info.ObjectOf(id)]++
+				}
 			}
-		}
-		return true
-	})
+			return true
+		})
+	}
 	for o := range a.locals {
 		if defs[o] != 1 {
 			delete(a.locals, o)
@@ -2597,10 +3024,48 @@ func c19GradLoop(c *Ctx, q *Prog, rule string, info *types.Info, fd *ast.FuncDec
 	c19Restore(c, a, rule, fname, rs, list, pObj, env, eObj)
 
 	// (c) one targets value, one coefficient object, grads from NullVector
+	// when the loop was extracted into a helper, the vectors are set up in its caller: analyse from there
 	var all []c19Use
 	a.collect(fd.Body, nil, 0, &all)
+	root := fd
+	has := func(us []c19Use, what string) bool {
+		for _, u := range us {
+			if u.what == what {
+				return true
+			}
+		}
+		return false
+	}
+	if !has(all, "SetVector") || !has(all, "NullVector") {
+		for _, g := range decls {
+			var us []c19Use
+			if g != fd {
+				a.collect(g.Body, nil, 0, &us)
+			}
+			direct := map[string]bool{}
+			ast.Inspect(g.Body, func(n ast.Node) bool {
+				if call, ok := n.(*ast.CallExpr); ok {
+					direct[a.callName(call)] = true
+				}
+				return true
+			})
+			if has(us, "TunedParams") && direct[c19Tun+".(*EngineRep).SetVector"] && direct[c19Tun+".NullVector"] {
+				root, all = g, us
+				break
+			}
+		}
+	}
+	eObj, gradsObj = nil, nil
+	for _, u := range all {
+		switch u.what {
+		case "TunedParams":
+			eObj = u.recv
+		case "ModifyElem":
+			gradsObj = u.recv
+		}
+	}
 	var nullDef types.Object
-	ast.Inspect(fd.Body, func(n ast.Node) bool {
+	ast.Inspect(root.Body, func(n ast.Node) bool {
 		if as, ok := n.(*ast.AssignStmt); ok && len(as.Lhs) == 1 && len(as.Rhs) == 1 {
 			if call, ok := ast.Unparen(as.Rhs[0]).(*ast.CallExpr); ok && a.callName(call) == c19Tun+".NullVector" {
 				nullDef = a.objOf(as.Lhs[0], nil)
@@ -2868,6 +3333,17 @@ func init() {
 		Mutant{Name: "C19.R3-tunedparams-skips-first-field", Prop: "C19", File: vec,
 			Old: "\t\tfor i := range structT.NumField() {\n\t\t\tif slices.Contains(targets, structT.Field(i).Name) {\n\t\t\t\tif !yieldFields", New: "\t\tfor i := structT.NumField() - 1; i >= 0; i-- {\n\t\t\tif slices.Contains(targets, structT.Field(i).Name) {\n\t\t\t\tif !yieldFields",
 			Expect: "C19.R3/TunedParams#field.order"},
+		Mutant{Name: "C19.R3-counting-closure-counts-early", Prop: "C19", File: vec,
+			Old:   "\t\tfor i := range structT.NumField() {\n\t\t\tif slices.Contains(targets, structT.Field(i).Name) {\n\t\t\t\tif !yieldFields(yield, &cnt, structV.Field(i)) {\n",
+			New:   "\t\tnumbered := func(param *float64) bool {\n\t\t\tcnt++\n\t\t\tif !yield(cnt, param) {\n\t\t\t\treturn false\n\t\t\t}\n\t\t\treturn true\n\t\t}\n\n\t\tfor i := range structT.NumField() {\n\t\t\tif slices.Contains(targets, structT.Field(i).Name) {\n\t\t\t\tif !yieldFields(numbered, structV.Field(i)) {\n",
+			File2: vec, Old2: "func yieldFields(yield func(int, *float64) bool, cnt *int, v reflect.Value) bool {\n\tswitch v.Kind() {\n\tcase reflect.Array:\n\t\tfor i := 0; i < v.Len(); i++ {\n\t\t\tif !yieldFields(yield, cnt, v.Index(i)) {\n\t\t\t\treturn false\n\t\t\t}\n\t\t}\n\n\tcase reflect.Float64:\n\t\tif !yield(*cnt, v.Addr().Interface().(*float64)) {\n\t\t\treturn false\n\t\t}\n\t\t*cnt++\n\n\tdefault:\n\t\tpanic(\"unexpected kind \" + v.Kind().String())\n\t}\n\treturn true\n}\n",
+			New2:   "func yieldFields(yield func(*float64) bool, v reflect.Value) bool {\n\tswitch v.Kind() {\n\tcase reflect.Array:\n\t\tfor i := range v.Len() {\n\t\t\tif !yieldFields(yield, v.Index(i)) {\n\t\t\t\treturn false\n\t\t\t}\n\t\t}\n\t\treturn true\n\n\tcase reflect.Float64:\n\t\treturn yield(v.Addr().Interface().(*float64))\n\n\tdefault:\n\t\tpanic(\"unexpected kind \" + v.Kind().String())\n\t}\n}\n",
+			Expect: "C19.R3/TunedParams#leaf.index"},
+		Mutant{Name: "C19.R3-shared-iterator-descending", Prop: "C19", File: vec,
+			Old:   "\tstructV := reflect.ValueOf(unWrap)\n\tstructT := reflect.TypeOf(unWrap)\n\n\tfor i := range structT.NumField() {\n\t\tif slices.Contains(targets, structT.Field(i).Name) {\n\t\t\tfloats := getFieldFloats(structV.Field(i))\n\n\t\t\tresult.data = append(result.data, floats...)\n\t\t}\n\t}\n",
+			New:   "\tfor field := range targetFields(reflect.ValueOf(unWrap), targets) {\n\t\tfloats := getFieldFloats(field)\n\n\t\tresult.data = append(result.data, floats...)\n\t}\n",
+			File2: vec, Old2: "func getFieldFloats(", New2: "func targetFields(structV reflect.Value, targets []string) iter.Seq[reflect.Value] {\n\tstructT := structV.Type()\n\n\treturn func(yield func(reflect.Value) bool) {\n\t\tfor i := structT.NumField() - 1; i >= 0; i-- {\n\t\t\tif !slices.Contains(targets, structT.Field(i).Name) {\n\t\t\t\tcontinue\n\t\t\t}\n\t\t\tif !yield(structV.Field(i)) {\n\t\t\t\treturn\n\t\t\t}\n\t\t}\n\t}\n}\n\nfunc getFieldFloats(",
+			Expect: "C19.R3/ToVector#field.order"},
 		Mutant{Name: "C19.R4-target-typo", Prop: "C19", File: "tools/tuner/tuning/tuning.go", Quick: true,
 			Old: "\"MobilityKnight\", \"MobilityBishop\", \"MobilityRook\",", New: "\"MobilityKnight\", \"MobilityBishops\", \"MobilityRook\",",
 			Expect: "C19.R4/target:MobilityBishops"},
